@@ -105,7 +105,7 @@ func main() {
 			e.Count(true, res.CaseLine(), "rejected:"+res.ErrClass)
 			if res.ErrClass == "panic" {
 				e.Fail("writer-panics", fmt.Sprintf("operation %d panics: %s", res.ErrIdx, res.ErrText), res.Describe())
-			} else if res.DeferredCloseFailed && strings.Contains(res.ErrText, "already written") {
+			} else if res.DeferredCloseFailed && !res.Provoked && strings.Contains(res.ErrText, "already written") {
 				e.Fail(prog.SigDeferred, fmt.Sprintf("Put of a *Stream was accepted while a stream was open; operation %d then fails: %s", res.ErrIdx, res.ErrText), res.Describe())
 			}
 			for _, m := range res.ArgsModified {
